@@ -192,6 +192,8 @@ impl PatchChain {
                             match PatchFile::parse(&patch_data) {
                                 Ok(patch) => patches.push((idx, patch)),
                                 Err(e) => {
+                                    // A patch that cannot be parsed must fail the lookup: skipping it
+                                    // would hand out an older version as if it were the patched file
                                     log::warn!(
                                         "Failed to parse patch file '{}' in archive {} (priority {}): {}",
                                         filename,
@@ -199,6 +201,7 @@ impl PatchChain {
                                         entry.priority,
                                         e
                                     );
+                                    return Err(e);
                                 }
                             }
                         }
@@ -210,6 +213,7 @@ impl PatchChain {
                                 entry.priority,
                                 e
                             );
+                            return Err(e);
                         }
                     }
                 } else if base_data.is_none() {
@@ -223,6 +227,9 @@ impl PatchChain {
                                 entry.priority
                             );
                             base_data = Some(data);
+                            // Entries below the base are superseded by it: patches found there
+                            // were made for an older version and are not applicable
+                            break;
                         }
                         Err(e) => {
                             log::warn!(
